@@ -177,6 +177,18 @@ def rule_D4(tree: Tree) -> RuleResult:
                     if dotted(tg) == "self.client_port" and not (isinstance(n, ast.Assign) and dotted(n.value) == "client_port"):
                         cw.append(src(n))
         r.ob(not cw, Finding("D4", f"{cls_mod}:{cls_name}:client-port", f"the client port is never changed, found {cw}", c.module.relpath))
+    # run() does not edit the parsed map
+    r.instances += 1
+    muts = []
+    for n in body_walk(run.node):
+        if isinstance(n, ast.Call) and isinstance(n.func, ast.Attribute) and dotted(n.func.value) == "portmap" and n.func.attr in ("pop", "clear", "update", "popitem", "setdefault"):
+            muts.append(src(n, 50))
+        if isinstance(n, ast.Delete) and any("portmap" in src(t) for t in n.targets):
+            muts.append(src(n, 50))
+        if isinstance(n, ast.Assign) and any(isinstance(t, ast.Subscript) and dotted(t.value) == "portmap" for t in n.targets):
+            muts.append(src(n, 50))
+    pm_defs = [src(n.value) for n in body_walk(run.node) if isinstance(n, ast.Assign) and dotted(n.targets[0]) == "portmap"]
+    r.ob(not muts and pm_defs == ["get_port_map(args)"], Finding("D4", "main:run:portmap-unmodified", f"run() must use the map parsed from -m as it is; found {muts or pm_defs}", main.line(run.node)))
     # provenance of the gate flag and of the map in both builders: the argparse namespace / get_port_map, through every call site
     from ..prov import Prov
     pv = Prov(tree)
